@@ -813,12 +813,10 @@ class C17Monitor(Monitor):
             lv = rec[5]
             self.recv_seen += 1
             if isinstance(item, lib.Batch):
-                # (e) routing history of every contained part ends with the accepting device
-                for p in lv:
-                    rh = p.routing_history
-                    if not rh or rh[-1] is not f.dev[n]:
-                        f.fail('C17.e', f'{n} accepted batch {item.name} but part {p.name} has history ending '
-                               f'with {rh[-1].name if rh else None}', 'batch_history')
+                # (e) at the moment of acceptance the routing history of every contained part ended with the device
+                if not rec[7]:
+                    f.fail('C17.e', f'{n} accepted batch {item.name} at {rec[2]} but the routing history of a part in it did '
+                           f'not end with {n} at that moment', 'batch_history')
                 f.bump(f.stats['reach'], 'batch_accepted')
             if n in self.inseq:
                 self.inseq[n].extend(lv)
@@ -1131,7 +1129,7 @@ class C15Monitor(Monitor):
         # (c)/(d) received and produced records match the occurrences seen by the harness callbacks
         exp_recv, exp_fin = {}, {}
         while self.recv_seen < len(f.recv_log):
-            n, item, t, eff, val, lv, q = f.recv_log[self.recv_seen]
+            n, item, t, eff, val, lv, q = f.recv_log[self.recv_seen][:7]
             self.recv_seen += 1
             exp_recv.setdefault(n, []).append((t, item.id, q, val))
             self.n_recv[n] = self.n_recv.get(n, 0) + 1
